@@ -22,6 +22,10 @@ pub tracked struct MW {
     pub ghost events_sent: Seq<(ChanId, int)>,
     /// notifications sent with ctx.notify_shell
     pub ghost notified: Seq<(ChanId, int)>,
+    /// outputs the awaited request / stream of a builder has yielded so far (value identities), oldest first
+    pub ghost yielded: Seq<int>,
+    /// the builder's stream has ended
+    pub ghost ended: bool,
 }
 
 pub uninterp spec fn val_id<T>(t: T) -> int;
@@ -52,7 +56,7 @@ impl<Effect, Event> CommandContext<Effect, Event> {
     pub fn send_event(&self, Tracked(w): Tracked<&mut MW>, event: Event)
         ensures
             final(w).events_sent == old(w).events_sent.push((self.events.role(), val_id(event))),
-            final(w).hosted == old(w).hosted, final(w).notified == old(w).notified,
+            final(w).hosted == old(w).hosted, final(w).notified == old(w).notified, final(w).yielded == old(w).yielded, final(w).ended == old(w).ended,
     { unimplemented!() }
     // ASSUMED (Kani unit A: notify_shell sends exactly one effect whose request accepts no resolution)
     #[verifier::external_body]
@@ -60,6 +64,14 @@ impl<Effect, Event> CommandContext<Effect, Event> {
         ensures
             final(w).notified == old(w).notified.push((self.effects.role(), val_id(operation))),
             final(w).hosted == old(w).hosted, final(w).events_sent == old(w).events_sent,
+    { unimplemented!() }
+}
+
+impl<Effect, Event> Clone for CommandContext<Effect, Event> {
+    // ASSUMED (proved in unit Q: CommandContext::clone): the clone sends into the same channels
+    #[verifier::external_body]
+    fn clone(&self) -> (r: Self)
+        ensures r.effects.role() == self.effects.role(), r.events.role() == self.events.role(),
     { unimplemented!() }
 }
 
@@ -197,6 +209,103 @@ impl<Effect, Event, F> Mapped<Effect, Event, F> {
         final(w).notified == old(w).notified.push(($x.effects.role(), val_id(operation))), // [C04/notify/exactly-its-single-notification]
         final(w).hosted == old(w).hosted && final(w).events_sent == old(w).events_sent, // [C04/notify/and-nothing-else]
 //@rule X6.world * s/\.notify_shell\(/.notify_shell(Tracked(w), /
+//@end
+
+// ------------------------------------------------------------------ builder chains: then_send
+/// command::builder::RequestBuilder / StreamBuilder: a deferred task that talks to the shell (opaque)
+#[verifier::external_body]
+#[verifier::accept_recursive_types(T)]
+pub struct RequestBuilder<T> { _p: core::marker::PhantomData<T> }
+#[verifier::external_body]
+#[verifier::accept_recursive_types(T)]
+pub struct StreamBuilder<T> { _p: core::marker::PhantomData<T> }
+#[verifier::external_body]
+#[verifier::accept_recursive_types(T)]
+pub struct BuilderStream<T> { _p: core::marker::PhantomData<T> }
+impl<T> RequestBuilder<T> {
+    // ASSUMED (X17: `self.into_future(ctx).await`): the request runs to its end and yields its one output
+    #[verifier::external_body]
+    pub fn into_future<Effect, Event>(self, Tracked(w): Tracked<&mut MW>, ctx: CommandContext<Effect, Event>) -> (r: T)
+        ensures
+            final(w).yielded == old(w).yielded.push(val_id(r)),
+            final(w).events_sent == old(w).events_sent, final(w).hosted == old(w).hosted, final(w).notified == old(w).notified, final(w).ended == old(w).ended,
+    { unimplemented!() }
+}
+impl<T> StreamBuilder<T> {
+    // ASSUMED: building the stream yields nothing yet
+    #[verifier::external_body]
+    pub fn into_stream<Effect, Event>(self, Tracked(w): Tracked<&mut MW>, ctx: CommandContext<Effect, Event>) -> (r: BuilderStream<T>)
+        ensures *final(w) == *old(w),
+    { unimplemented!() }
+}
+impl<T> BuilderStream<T> {
+    // ASSUMED (X17: `stream.next().await`): the next output of the stream, or None once it has ended
+    #[verifier::external_body]
+    pub fn next(&mut self, Tracked(w): Tracked<&mut MW>) -> (r: Option<T>)
+        requires !old(w).ended,
+        ensures
+            match r { Some(o) => final(w).yielded == old(w).yielded.push(val_id(o)) && !final(w).ended, None => final(w).yielded == old(w).yielded && final(w).ended },
+            final(w).events_sent == old(w).events_sent, final(w).hosted == old(w).hosted, final(w).notified == old(w).notified,
+    { unimplemented!() }
+}
+/// `pin!(x)`: the same stream, pinned (X12)
+pub fn pinned<T>(t: T) -> (r: T)
+    ensures r == t,
+{ t }
+/// the events a then_send chain must have sent for the outputs yielded: one per output, in order
+pub open spec fn events_for(role: ChanId, f: spec_fn(int) -> int, outs: Seq<int>) -> Seq<(ChanId, int)> {
+    outs.map(|_i: int, o: int| (role, f(o)))
+}
+
+//@extract id=RequestBuilder::then_send::task file=crux_core/src/command/builder.rs within="impl<Effect, Event, Task, T> RequestBuilder<Effect, Event, Task>" item="fn then_send" closure="(?:Command|Self)::new\(" props=C04
+//@expect |$x| async move
+//@sig fn request_then_send_task<Effect, Event, T, E: FnOnce(T) -> Event>(Tracked(w): Tracked<&mut MW>, this: RequestBuilder<T>, event: E, Ghost(f): Ghost<spec_fn(int) -> int>, $x: CommandContext<Effect, Event>)
+//@contract
+    requires
+        forall|o: T| call_requires(event, (o,)),
+        forall|o: T, e: Event| call_ensures(event, (o,), e) ==> val_id(e) == f(val_id(o)),
+    ensures
+        final(w).yielded.len() == old(w).yielded.len() + 1, // [C04/request-then_send/the-request-is-awaited-exactly-once]
+        final(w).events_sent == old(w).events_sent.push(($x.events.role(), f(final(w).yielded.last()))), // [C04/request-then_send/its-output-is-fed-to-the-event-constructor-exactly-once-and-exactly-that-event-is-sent]
+        final(w).hosted == old(w).hosted && final(w).notified == old(w).notified,
+//@rule X19.captured-self * s/\bself\b/this/
+//@rule X17.await * s/\s*\.await\b//
+//@rule X6.world * s/\.into_future\(/.into_future(Tracked(w), /
+//@rule X6.world * s/\.send_event\(/.send_event(Tracked(w), /
+//@end
+
+//@extract id=StreamBuilder::then_send::task file=crux_core/src/command/builder.rs within="impl<Effect, Event, Task, T> StreamBuilder<Effect, Event, Task>" item="fn then_send" closure="(?:Command|Self)::new\(" props=C04
+//@expect |$x| async move
+//@sig fn stream_then_send_task<Effect, Event, T, E: Fn(T) -> Event>(Tracked(w): Tracked<&mut MW>, this: StreamBuilder<T>, event: E, Ghost(f): Ghost<spec_fn(int) -> int>, $x: CommandContext<Effect, Event>)
+//@attr #[verifier::exec_allows_no_decreases_clause]
+//@contract
+    requires
+        !old(w).ended,
+        forall|o: T| call_requires(event, (o,)),
+        forall|o: T, e: Event| call_ensures(event, (o,), e) ==> val_id(e) == f(val_id(o)),
+    ensures
+        final(w).ended, // [C04/stream-then_send/the-task-ends-only-when-the-stream-has-ended]
+        old(w).yielded.is_prefix_of(final(w).yielded),
+        final(w).events_sent == old(w).events_sent + events_for($x.events.role(), f, final(w).yielded.subrange(old(w).yielded.len() as int, final(w).yielded.len() as int)), // [C04/stream-then_send/every-output-is-fed-to-the-event-constructor-exactly-once-in-order]
+        final(w).hosted == old(w).hosted && final(w).notified == old(w).notified,
+//@loops 1
+//@loop 1
+        invariant_except_break
+            !w.ended,
+        invariant
+            forall|o: T| call_requires(event, (o,)),
+            forall|o: T, e: Event| call_ensures(event, (o,), e) ==> val_id(e) == f(val_id(o)),
+            old(w).yielded.is_prefix_of(w.yielded),
+            w.events_sent == old(w).events_sent + events_for($x.events.role(), f, w.yielded.subrange(old(w).yielded.len() as int, w.yielded.len() as int)), // [C04/stream-then_send/loop/events-sent-so-far-are-exactly-the-outputs-yielded-so-far]
+            w.hosted == old(w).hosted && w.notified == old(w).notified,
+        ensures
+            w.ended,
+//@rule X19.captured-self * s/\bself\b/this/
+//@rule X17.await * s/\s*\.await\b//
+//@rule X12.pin 1 s/\bpin!\(/pinned(/
+//@rule X6.world * s/\.into_stream\(/.into_stream(Tracked(w), /
+//@rule X6.world * s/\.next\(\)/.next(Tracked(w))/
+//@rule X6.world * s/\.send_event\(/.send_event(Tracked(w), /
 //@end
 
 // ------------------------------------------------------------------ the combinators themselves: one new command, one task
